@@ -318,6 +318,16 @@ func main() {
 				tail = "__snap p0; " + wrap(ctx, out.ChildS) + "; __snap p1"
 				parent = append(parent, hxc27.Op{Op: "assign", Name: "i", Rhs: &hxc27.Rhs{Kind: "str", S: "1"}})
 			}
+			if ctx == "backquote" && strings.Contains(tail, "`") {
+				// nested backquotes would need escaping: use $( ) for these
+				ctx = "cmdsubst"
+				out.Ctx = ctx
+				if i%5 == 4 {
+					tail = "__snap p0; " + wrap(ctx, out.ChildS) + "; __snap p1"
+				} else {
+					tail = "__snap p0; " + wrap(ctx, out.ChildS+"; __snap c") + "; __snap p1"
+				}
+			}
 			out.Prog = "n=1; r=0; " + hxc27.Render(parent, tail)
 			out.Bash = bashProg(out.Prog)
 			if _, err := hxc27.Parse(out.Prog); err != nil {
